@@ -79,6 +79,19 @@ def stride_key(fn, var, before):
     return None
 
 
+def stride_refs(fn, e, before):
+    """the stride look-ups an expression is scaled by: [(key, owner, default)] - through a local (`stride = O.stride.get(K, 1)`) or written in place"""
+    out = []
+    for v in names_in(e):
+        sk = stride_key(fn, v, before)
+        if sk is not None:
+            out.append(sk)
+    for v in ast.walk(e):
+        if isinstance(v, ast.Call) and isinstance(v.func, ast.Attribute) and v.func.attr == 'get' and isinstance(v.func.value, ast.Attribute) and v.func.value.attr == 'stride' and v.args:
+            out.append((U(v.args[0]), U(v.func.value.value), v.args[1] if len(v.args) > 1 else None))
+    return out
+
+
 def array_key(fn, recv, before):
     """key of the property array denoted by expression `recv` at node `before`:
     `O.properties[K]`, `O.get_carray(K)`, `PyDict_GetItem(O.properties, K)`, loop var of
@@ -258,22 +271,21 @@ def rule_stride(chk, cls):
                     continue
                 arg = expand_locals(fn, c.args[idx], c)
                 n += 1
-                cands = [v for v in names_in(arg) if stride_key(fn, v, c) is not None]
+                cands = stride_refs(fn, arg, c)
                 if isinstance(arg, ast.Constant):
                     chk.violated('stride-discipline', '%s:%s#%d' % (name, c.func.attr, idx), node=c, file=PA, func=name,
                                  detail='constant %s used where the stride of property %s is required' % (U(arg), key))
                     continue
-                good = [v for v in cands if stride_key(fn, v, c)[0] == key or names_equiv(fn, stride_key(fn, v, c)[0], key)]
+                good = [sk for sk in cands if sk[0] == key or names_equiv(fn, sk[0], key)]
                 if good:
-                    sk = stride_key(fn, good[0], c)
+                    sk = good[0]
                     dflt_ok = sk[2] is not None and isinstance(sk[2], ast.Constant) and sk[2].value == 1
                     chk.decide(dflt_ok, 'stride-discipline', '%s:%s#%d' % (name, c.func.attr, idx), node=c, file=PA,
                                func=name, detail_bad='stride default for absent key is not 1 (%s)' % U(sk[2]) if sk[2] is not None else 'no default',
                                detail_ok='%s uses stride of key %s' % (U(c)[:60], key))
                 elif cands:
                     chk.violated('stride-discipline', '%s:%s#%d' % (name, c.func.attr, idx), node=c, file=PA, func=name,
-                                 detail='array of key %s is sized with the stride looked up for key %s' % (
-                                     key, stride_key(fn, cands[0], c)[0]))
+                                 detail='array of key %s is sized with the stride looked up for key %s' % (key, cands[0][0]))
                 else:
                     chk.violated('stride-discipline', '%s:%s#%d' % (name, c.func.attr, idx), node=c, file=PA, func=name,
                                  detail='size/offset %s of array %s is not multiplied by that property\'s stride' % (U(arg), key))
@@ -288,8 +300,8 @@ def rule_stride(chk, cls):
                         continue
                     n += 1
                     bound = expand_locals(fn, bound, s)
-                    cands = [v for v in names_in(bound) if stride_key(fn, v, s) is not None]
-                    good = [v for v in cands if stride_key(fn, v, s)[0] == key or names_equiv(fn, stride_key(fn, v, s)[0], key)]
+                    cands = stride_refs(fn, bound, s)
+                    good = [sk for sk in cands if sk[0] == key or names_equiv(fn, sk[0], key)]
                     inst = '%s:slice[%s]' % (name, key)
                     if good:
                         chk.holds('stride-discipline', inst, node=s, file=PA, func=name, detail='%s' % U(s)[:70])
@@ -314,8 +326,8 @@ def rule_stride(chk, cls):
                 if U(bound).endswith('.length'):
                     continue   # whole-array loop, stride-free by construction
                 n += 1
-                cands = [v for v in names_in(bound) if stride_key(fn, v, l) is not None]
-                good = [v for v in cands if stride_key(fn, v, l)[0] in keys]
+                cands = stride_refs(fn, bound, l)
+                good = [sk for sk in cands if sk[0] in keys]
                 inst = '%s:range[%s]' % (name, ','.join(sorted(keys)))
                 if good:
                     chk.holds('stride-discipline', inst, node=l, file=PA, func=name, detail='range(%s)' % U(bound))
@@ -548,23 +560,8 @@ def rule_replicate(chk, cls):
                 need = {'name', 'type', 'default', 'stride'}
                 chk.decide(need <= kws, 'replicated-property-keeps-attributes', '%s' % name, node=c, file=PA, func=name,
                            detail_bad='property replicated without %s' % sorted(need - kws), detail_ok='name,type,default,stride passed')
-    # empty_clone must replicate EVERY requested property, the built-in tag/pid/gid included: a fresh ParticleArray already has
-    # those three, so a "not already present" guard (as in ensure_properties) silently drops their type/default
-    ec = M.methods(cls).get('empty_clone')
-    if ec is None:
-        raise AnalysisError('anchor method vanished: ParticleArray.empty_clone')
-    sites = [c for c in M.calls(ec) if (M.call_name(c) or '').endswith('.add_property')]
-    ok = False
-    for c in sites:
-        loop = M.enclosing(c, (ast.For,))
-        guarded = M.enclosing(c, (ast.If,))
-        if loop is not None and U(loop.iter) == 'prop_names' and (guarded is None or not any(guarded is x for x in ast.walk(loop))):
-            ok = True
-    chk.decide(ok, 'replicated-property-keeps-attributes', 'empty_clone:every-property-unconditionally', node=ec, file=PA, func='empty_clone',
-               detail_bad='empty_clone no longer re-creates every requested property itself (a delegate that skips names the fresh clone already '
-                          'has loses the type/default of tag, pid, gid - e.g. a non-Local default tag)',
-               detail_ok='add_property for every name in prop_names, no presence guard')
-    chk.floor('property replication sites', n, 2)
+    # (that empty_clone replicates every requested property, the built-ins included, and ensure_properties every missing one, each with type, default and stride of the
+    # source, is decided by the model runs rule_empty_clone_model / rule_ensure_model - also when the add_property call sits in a helper)
 
 
 def rule_tag_scans(chk, cls):
@@ -836,6 +833,176 @@ def rule_ensure_model(chk):
                               'property must take type, default and stride from the source' % (bad or ('', '', '')), detail_ok='%d selections: type, default and stride taken from the source' % nrun)
 
 
+def rule_empty_clone_model(chk):
+    """ParticleArray.empty_clone interpreted (E8, lowered Cython) on a model array: the clone gets every requested property - the built-in tag / pid / gid included, whose
+    type and default a fresh array already has but which may differ in the source - with the type, default and stride it has in the source, every constant, the name and the
+    output arrays restricted to the requested properties"""
+    from verif_static import emit as EM, absint as AI
+    t = M.cy(PA)
+    fn = M.find_method(t, 'ParticleArray', 'empty_clone')
+    bad, und, nrun = None, None, 0
+    for props in (None, ['A', 'x'], ['tag', 'B'], []):
+        it_log = {'props': [], 'consts': [], 'name': None, 'out': None}
+
+        def fresh(interp, f, args, kwargs, node, env, it_log=it_log):
+            def addp(i, a, k, n, e):
+                kw = dict(k)
+                for nm_, v_ in zip(('name', 'type', 'default', 'data', 'stride'), a):
+                    kw[nm_] = v_
+                it_log['props'].append(kw)
+
+            def addc(i, a, k, n, e):
+                it_log['consts'].append((a[0], k.get('data', a[1] if len(a) > 1 else None)))
+
+            def setn(i, a, k, n, e):
+                it_log['name'] = a[0]
+
+            def seto(i, a, k, n, e):
+                it_log['out'] = list(a[0])
+            # a fresh array already has the three built-in properties
+            def carr0(ty):
+                return EM.mock(get_c_type=lambda i, a, k, n, e: ty)
+            # (an instance of the class itself, so that a clone built through other methods of the fresh array - ensure_properties, say - is interpreted too)
+            return EM.instance(interp, '<pa>', 'ParticleArray', name='', gpu=None, backend='cython', properties={'tag': carr0('int'), 'pid': carr0('int'), 'gid': carr0('unsigned int')},
+                               default_values={'tag': 0, 'pid': 0, 'gid': 4294967295}, stride={}, constants={}, output_property_arrays=[],
+                               add_property=addp, add_constant=addc, set_name=setn, set_output_arrays=seto)
+        it = AI.Interp(EM.EI.index(), AI.Config([]), intrinsics={('<pa>', 'ParticleArray'): fresh})
+        EM.model_module(it, '<pa>', t)
+
+        def carr(ty):
+            return EM.mock(get_c_type=lambda i, a, k, n, e: ty)
+        src = EM.instance(it, '<pa>', 'ParticleArray', gpu=None, backend='cython', name='fluid',
+                          properties={'x': carr('double'), 'A': carr('int'), 'tag': carr('int'), 'pid': carr('int'), 'gid': carr('unsigned int'), 'B': carr('float')},
+                          stride={'A': 3}, default_values={'x': 1.0, 'A': 7, 'tag': 2, 'pid': 0, 'gid': 5, 'B': 0.5}, constants={'c0': ('c', 0), 'rho0': ('c', 1)},
+                          output_property_arrays=['x', 'A', 'gid'])
+        try:
+            EM.call(it, src, 'empty_clone', props)
+        except (AI.Unsupported, AI.Raised) as e:
+            und = 'props=%s: %s' % (props, e)
+            break
+        nrun += 1
+        full = {'x': ('double', 1.0, 1), 'A': ('int', 7, 3), 'tag': ('int', 2, 1), 'pid': ('int', 0, 1), 'gid': ('unsigned int', 5, 1), 'B': ('float', 0.5, 1)}
+        names = list(full) if props is None else props
+        want = sorted((n_,) + full[n_] for n_ in names)
+        got = sorted((c_.get('name'), c_.get('type'), c_.get('default'), c_.get('stride', 1)) for c_ in it_log['props'])
+        wout = sorted(['x', 'A', 'gid'] if props is None else [p_ for p_ in props if p_ in ('x', 'A', 'gid')])
+        gout = sorted(it_log['out']) if it_log['out'] is not None else None
+        if bad is None and (got != want or sorted(it_log['consts']) != [('c0', ('c', 0)), ('rho0', ('c', 1))] or it_log['name'] != 'fluid' or gout != wout):
+            bad = (props, got, want, it_log['consts'], it_log['name'], gout, wout)
+    if und:
+        chk.undecided('replicated-property-keeps-attributes', 'empty_clone:model-run', node=fn, file=PA, func='empty_clone', detail='not interpretable on the model: ' + und)
+    else:
+        chk.decide(bad is None, 'replicated-property-keeps-attributes', 'empty_clone:model-run', node=fn, file=PA, func='empty_clone',
+                   detail_bad='a model array (x, A: int default 7 stride 3, B: float, tag with default 2, gid with default 5; constants c0, rho0; output arrays x, A, gid) cloned with '
+                              'props=%s: properties added %s, expected %s; constants %s, name %r, output arrays %s (expected %s)' % (bad or ('',) * 7),
+                   detail_ok='%d selections: every requested property (built-ins included) with the type, default and stride of the source; constants, name, output arrays' % nrun)
+    return nrun
+
+
+def rule_default_kept(chk, cls):
+    """add_property without an explicit default: a property that exists keeps the default it has (data re-supplied for gid, tag or a user property must not reset it - new
+    particles are filled with the default when the array grows), a new one gets 0.  Decided per path of the statements that settle `default` when none was passed."""
+    from verif_static import paths as PT
+    ap = M.methods(cls).get('add_property')
+    if ap is None:
+        raise AnalysisError('ParticleArray.add_property vanished')
+    M.set_parents(ap)
+    # the statements between the argument checks and the store into default_values
+    store = [a for a in ast.walk(ap) if isinstance(a, ast.Assign) and isinstance(a.targets[0], ast.Subscript) and U(a.targets[0].value) == 'self.default_values']
+    if not store:
+        chk.violated('maps-in-step:insert-default', 'add_property:default-recorded', node=ap, file=PA, func='add_property', detail='add_property no longer records the default of the property')
+        return
+    st0 = store[0]
+    top = st0
+    while top.parent is not ap:
+        top = top.parent
+    body = M.docstring_stripped(ap.body)
+    k = body.index(top)
+    j = k
+    while j > 0 and any(isinstance(x, ast.Name) and x.id == 'default' for x in ast.walk(body[j - 1])) and not any(isinstance(x, ast.Raise) for x in ast.walk(body[j - 1])):
+        j -= 1
+    seg = body[j:k + 1]
+    bad = []
+    seen = set()
+    for p_ in PT.enumerate_paths(seg):
+        if PT.took(p_, True, 'default is None') is None:
+            continue
+        # what is stored for the property on this path
+        stored = None
+        for e in p_:
+            if e.kind == 'stmt' and isinstance(e.node, ast.Assign) and isinstance(e.node.targets[0], ast.Subscript) and U(e.node.targets[0].value) == 'self.default_values':
+                stored = U(PT.resolve(e.node.value, e.env)).replace(' ', '')
+        facts = [(U(t_).replace(' ', ''), tr) for t_, tr in PT.path_facts(p_)]
+        exists = None
+        for t_, tr in facts:
+            if t_ in ('prop_nameinself.properties', 'nameinself.properties', 'self.properties.has_key(prop_name)', 'prop_nameinself.default_values'):
+                exists = tr
+            if t_ in ('prop_namenotinself.properties', 'namenotinself.properties'):
+                exists = not tr
+        if exists is None:
+            bad.append('a path settles the default as %s without asking whether the property exists' % stored)
+        elif exists:
+            seen.add('existing')
+            if stored not in ('self.default_values[prop_name]', 'self.default_values[name]', None) and not (stored or '').startswith('self.default_values.get(prop_name'):
+                bad.append('for a property that exists the default becomes %s' % stored)
+        else:
+            seen.add('new')
+            if stored not in ('0', '0.0'):
+                bad.append('for a new property the default becomes %s' % stored)
+    if 'existing' not in seen and not bad:
+        bad.append('no path keeps the default of a property that exists')
+    chk.decide(not bad, 'maps-in-step:insert-default', 'add_property:default-kept-when-none-is-given', node=st0, file=PA, func='add_property',
+               detail_bad='%s: data supplied again for an existing property (gid, tag, a property created with default=...) silently resets its default; particles added '
+                          'later get the wrong fill value (tag 0 = Local instead of the array\'s default tag, gid 0 instead of UINT_MAX)' % '; '.join(bad[:2]),
+               detail_ok='existing property: its own default; new property: 0')
+
+
+def rule_count_from_data(chk, cls):
+    """add_particles / add_property: where the number of particles is read off the length of the data given for a property, the length is divided by the stride of that
+    same property (len(data) // stride): the data of a strided property holds stride values per particle"""
+    n = 0
+    for name in ('add_particles', 'add_property'):
+        fn = M.methods(cls).get(name)
+        if fn is None:
+            raise AnalysisError('ParticleArray.%s vanished' % name)
+        M.set_parents(fn)
+        for c in M.calls(fn):
+            if M.call_name(c) != 'len' or len(c.args) != 1:
+                continue
+            a0 = c.args[0]
+            key = None
+            if isinstance(a0, ast.Subscript) and isinstance(a0.value, ast.Name) and a0.value.id == 'particle_props':
+                key = U(a0.slice)
+            elif isinstance(a0, ast.Name) and a0.id == 'data' and name == 'add_property':
+                key = None if False else 'prop_name'
+            else:
+                continue
+            par = c.parent
+            # a length that is only probed (`len(data)` as a statement), tested (any comparison, `% stride`) or that sizes a carray of *values* is not a particle count
+            anc, skip = c, False
+            while not isinstance(anc, ast.stmt):
+                up = anc.parent
+                if isinstance(up, ast.Compare) or (isinstance(up, ast.BinOp) and isinstance(up.op, ast.Mod)) or \
+                        (isinstance(up, (ast.Call, ast.keyword)) and up is not c and not (isinstance(up, ast.Call) and (M.call_name(up) or '') in ('int', 'max', 'min'))):
+                    skip = True
+                anc = up
+            if skip or (isinstance(anc, ast.Expr) and anc.value is c):
+                continue
+            n += 1
+            ok = False
+            if isinstance(par, ast.BinOp) and isinstance(par.op, ast.FloorDiv) and par.left is c:
+                refs = stride_refs(fn, par.right, c)
+                if name == 'add_property':
+                    ok = bool(refs) or (isinstance(par.right, ast.Name) and par.right.id == 'stride')       # the stride parameter of the property being added
+                else:
+                    ok = any(sk[0] == key or names_equiv(fn, sk[0], key) for sk in refs)
+            chk.decide(ok, 'stride-discipline', '%s:particles-from-len(%s)@%d' % (name, U(a0), n), node=c, file=PA, func=name,
+                       detail_bad='%s is used as a number of particles without dividing by the stride of that property: given a strided property the array grows by stride times too '
+                                  'many particles for every property not passed (tag, pid, gid ...), whose lengths then disagree with the ones passed' % U(par if isinstance(par, ast.expr) else c),
+                       detail_ok='len(data) // stride of the same property')
+    chk.floor('particle counts read off data lengths', n, 2)
+
+
 def rule_initialize_model(chk):
     """ParticleArray._initialize (what the constructor and the npz reader build arrays through) interpreted (E8, lowered Cython) on model property sets: the number of particles
     is the largest count over the properties given - len(data) // stride for a strided one -, a property given as a single value is spread over that many particles and nothing
@@ -936,6 +1103,9 @@ def main(chk):
     rule_count(chk, cls)
     rule_append_offsets(chk, cls)
     rule_ensure_model(chk)
+    rule_empty_clone_model(chk)
+    rule_default_kept(chk, cls)
+    rule_count_from_data(chk, cls)
     rule_initialize_model(chk)
     # align_particles keeps its index array a permutation (rule shared with C16, which relies on it after removals)
     import importlib.util
